@@ -243,6 +243,12 @@ def eval_hash(scn: dict[str, Any], tag: str) -> dict[str, Any]:
 # family P / L
 
 
+def _sorted(r: dict[str, Any]) -> dict[str, Any]:
+    per_file, other = runner.split_output(r.get("stdout") or "")
+    lines = [l for f in sorted(per_file) for l in sorted(per_file[f])] + other
+    return dict(r, stdout="\n".join(lines) + ("\n" if lines else ""))
+
+
 def multiset(r: dict[str, Any]) -> Any:
     o = runner.observable(r)
     return [o["status"], {f: sorted(v) for f, v in o["per_file"].items()}, sorted(o["other"])]
@@ -272,7 +278,7 @@ def eval_perm(scn: dict[str, Any], tag: str) -> dict[str, Any]:
                 out["nontrivial"] = len(files) >= 3 and len(r["stdout"].splitlines()) >= 3
                 continue
             if multiset(r) != multiset(ref):
-                if runner.differs_only_in_only_once(r, ref) or runner.partial_output_before_blocker(r, ref):
+                if runner.soft_difference(_sorted(r), _sorted(ref)) is not None:
                     # C02's known-finding classes (per-process only_once notes; how much was printed
                     # before a blocking error aborted the build) - not an order dependence of the result
                     out["only_once"] = True
